@@ -918,7 +918,28 @@ func genCase(t *rapid.T) Case {
 		c.Src = c.Src[:maxLen()]
 		c.Mut = append(c.Mut, "cap")
 	}
+	if capped, did := capScanCost(c.Src); did {
+		c.Src = capped
+		c.Mut = append(c.Mut, "cap-comment-openers")
+	}
 	return c
+}
+
+// capScanCost keeps an input inside the region where the scanner's cost is far below the
+// termination watchdog. The block-comment rule ("/*" any* :>> "*/") makes the generated
+// scanner run to the end of the input for every "/*" that has no terminator and then
+// backtrack to the "/" token, i.e. k unterminated openers cost k*len steps: 64 KiB of
+// "/* " was measured at 19 s (16 KiB: 1.2 s) on the loaded build machine. That is slow,
+// not endless, so it is not what the termination oracle is about; the product
+// (#"/*") * len is bounded here (the input is cut) so that a firing watchdog means a hang.
+func capScanCost(src []byte) ([]byte, bool) {
+	const budget = 1 << 27
+	did := false
+	for len(src) > 0 && bytes.Count(src, []byte("/*"))*len(src) > budget {
+		src = src[:len(src)*3/4]
+		did = true
+	}
+	return src, did
 }
 
 // ---------------------------------------------------------------------------------
